@@ -159,6 +159,12 @@ def to_perf(recs, shuffle_rng=None, layout=None, origin=ORIGIN):
     P.set_id_all(not (len(lay) > 6 and lay[6]))
     # an eighth element: the main event ("cycles" = a hardware event with a fixed period; the default is the cpu-clock software event)
     P.set_event(lay[7] if len(lay) > 7 else "cpu-clock")
+    # a ninth element (two-event files only): the second event has samples of its own - "instructions" / "cycles" (hardware) / "page-faults" (software);
+    # the history's "switch" records are then written as SAMPLE records of that event (the converter makes markers of them, after looking the
+    # process and the thread up - the same effect on the entries as a context-switch record, which is how the model reads them) and the attribute
+    # does not ask for context-switch records
+    if len(lay) > 8 and lay[8] and P._layout["task_event"] is not None:
+        P.set_second_event(lay[8])
     try:
         return _to_perf(recs, shuffle_rng, origin, lay[4] if len(lay) > 4 else "std")
     finally:
@@ -194,14 +200,19 @@ def _to_perf(recs, shuffle_rng=None, origin=ORIGIN, chains="std"):
         elif k == "exit":
             out.append((r[3], P.exit_(r[1], r[1], r[2], r[2], r[3])))
         elif k == "comm":
-            out.append((r[5], P.comm(r[1], r[2], ("nm%d" % r[3]) if r[3] else "", r[5], r[4])))
+            out.append((r[5], P.comm(r[1], r[2], name_str(r[3]), r[5], r[4])))
         elif k == "sample":
             out.append((r[3], P.sample(r[1], r[2], r[3], 0x401160, _chain(chains, r[3]), cpumode=_cpumode(chains, r[3]))))
         elif k == "mmap":
             out.append((r[3], P.mmap2(r[1], r[2], 0x401000, 0x1000, 0x1000, MAPFILE, r[3])))
         elif k == "switch":
-            out.append((r[3], P.switch(r[1], r[2], r[3], 0, r[4])))
-    has_switch = any(r[0] == "switch" for r in recs)
+            if P._layout["second"] != "dummy":
+                # (a switch record of the idle thread, tid 0, is ignored by the converter - and by the model -, a sample of tid 0 is not: no record is written for it)
+                if r[2] != 0:
+                    out.append((r[3], P.sample(r[1], r[2], r[3], 0x401170, None, second=True)))
+            else:
+                out.append((r[3], P.switch(r[1], r[2], r[3], 0, r[4])))
+    has_switch = any(r[0] == "switch" for r in recs) and P._layout["second"] == "dummy"
     rounds = []
     if shuffle_rng is not None:
         # physical order shuffled inside rounds; the reader sorts each round by timestamp.  Equal timestamps (deliberate sample repeats) stay adjacent in file order.
@@ -287,6 +298,21 @@ def run_import(samply, recs, d, shuffle_seed=None, extra_args=(), layout=None, o
 
 
 # ---------- Coq rendering ----------
+def name_str(k):
+    """the comm string of name number k: most are ASCII, some carry two- and three-byte UTF-8 sequences (a comm is a byte string; names in other
+    scripts are legal and common)"""
+    if not k:
+        return ""
+    return ("nm\u00f6%d" if k % 7 == 3 else "\u30b5\u30fc\u30d0%d" if k % 7 == 5 else "nm%d") % k
+
+
+def name_num(s):
+    m = re.fullmatch(r"(nm|nm\u00f6|\u30b5\u30fc\u30d0)(\d+)", s)
+    if m and name_str(int(m.group(2))) == s:
+        return int(m.group(2))
+    return None
+
+
 def coq_records(recs, comm_times=True):
     """comm_times = False: the file was written without sample_id_all, its COMM records carry no time (0 in the model's record)"""
     out = []
@@ -310,9 +336,8 @@ def coq_records(recs, comm_times=True):
 def _pname(s):
     if s == "":
         return "(NGiven 0)"
-    m = re.fullmatch(r"nm(\d+)", s)
-    if m:
-        return "(NGiven %s)" % m.group(1)
+    if name_num(s) is not None:
+        return "(NGiven %d)" % name_num(s)
     m = re.fullmatch(r"<(-?\d+)>", s)
     if m:
         return "(NPid %d)" % (int(m.group(1)) % 2**32)          # pids are i32 in the converter and u32 in the profile: "<-1>" is pid 4294967295
@@ -324,9 +349,8 @@ def _tname(e):
         return "(TNProc %s)" % _pname(e["tname"])
     if e["tname"] == "":
         return "(TNGiven 0)"
-    m = re.fullmatch(r"nm(\d+)", e["tname"])
-    if m:
-        return "(TNGiven %s)" % m.group(1)
+    if name_num(e["tname"]) is not None:
+        return "(TNGiven %d)" % name_num(e["tname"])
     m = re.fullmatch(r"Thread <(-?\d+)(?:\.(\d+))?>", e["tname"])
     if m:
         return "(TNFallback %d %s)" % (int(m.group(1)) % 2**32, m.group(2) or "0")
